@@ -292,12 +292,24 @@ fn mk_invoice(h: [u8; 32], now: u64, amt: u64, key_byte: u8) -> lightning_signer
 
 pub struct C12Node;
 
+/// the validator factory a node gets: the simple one, or (`onchain`) vlsd's default wrapper around it
+fn factory(policy: lightning_signer::policy::simple_validator::SimplePolicy, onchain: bool) -> Arc<dyn lightning_signer::policy::validator::ValidatorFactory> {
+    let simple = SimpleValidatorFactory::new_with_policy(policy);
+    if onchain {
+        Arc::new(lightning_signer::policy::onchain_validator::OnchainValidatorFactory::new_with_simple_factory(simple))
+    } else {
+        Arc::new(simple)
+    }
+}
+
+static ONCHAIN_FACTORY: std::sync::atomic::AtomicBool = std::sync::atomic::AtomicBool::new(false);
+
 fn services(persister: Arc<dyn Persist>, clock: Arc<dyn lightning_signer::util::clock::Clock>, limit: u64, ty: VelocityControlIntervalType) -> NodeServices {
     let mut policy = make_default_simple_policy(Network::Testnet);
     policy.global_velocity_control = VelocityControlSpec { limit_msat: limit, interval_type: ty };
     policy.max_invoices = 10_000;
     NodeServices {
-        validator_factory: Arc::new(SimpleValidatorFactory::new_with_policy(policy)),
+        validator_factory: factory(policy, ONCHAIN_FACTORY.load(std::sync::atomic::Ordering::Relaxed)),
         starting_time_factory: make_genesis_starting_time_factory(Network::Testnet),
         persister,
         clock,
@@ -327,7 +339,7 @@ impl Group for C12Node {
         let t: Vec<&str> = op.split_whitespace().collect();
         if t.first() == Some(&"n_race") { return None; }
         Some(match t.as_slice() {
-            ["n_new", l, ty] => format!("spec {} {}", l, ty),
+            ["n_new", l, ty] | ["n_new", l, ty, _] => format!("spec {} {}", l, ty),
             ["n_keysend", now, amt] | ["n_keysend", now, amt, _] => format!("insert {} {}", now, amt),
             ["n_invoice", now, amt] | ["n_invoice", now, amt, _] => format!("insert {} {}", now, amt),
             ["n_dup", now] => format!("dup {}", now),
@@ -339,7 +351,7 @@ impl Group for C12Node {
         let limit = *rng.pick(&[1000u64, 5000, 1_000_000, 1]);
         let ty = *rng.pick(&["h", "d"]);
         let (bi, n) = if ty == "d" { (3600u64, 24u64) } else { (300, 12) };
-        let mut ops = vec![format!("n_new {} {}", limit, ty)];
+        let mut ops = vec![format!("n_new {} {}{}", limit, ty, if rng.chance(1, 3) { " o" } else { "" })];
         let len = rng.range(3, if tier == Tier::Quick { 10 } else { 25 }) as usize;
         let mut ta = gen_times_amounts(rng, bi, n, limit, len, tier);
         // Node timestamps start from a realistic epoch
@@ -412,7 +424,10 @@ impl Group for C12Node {
                 }
             } else { dup = false; t0.clone() };
             let line = match t.as_slice() {
-                ["n_new", l, ty] => {
+                ["n_new", l, ty, ..] => {
+                    // 4th token `o`: the node runs with OnchainValidatorFactory (vlsd's default) around the policy
+                    ONCHAIN_FACTORY.store(t.get(3) == Some(&"o"), std::sync::atomic::Ordering::Relaxed);
+                    co.tags.insert(format!("factory:{}", if t.get(3) == Some(&"o") { "onchain" } else { "simple" }));
                     last_req = None;
                     cur_spec = Some((l.parse().unwrap(), ty.to_string()));
                     let n = Arc::new(Node::new(config, &seed, vec![], services(persister.clone(), hclock.clone(), l.parse().unwrap(), itype(ty).unwrap())));
@@ -612,7 +627,7 @@ fn fee_services(persister: Arc<dyn Persist>, clock: Arc<ManualClock>, limit: u64
     let mut policy = make_default_simple_policy(Network::Testnet);
     policy.fee_velocity_control = VelocityControlSpec { limit_msat: limit, interval_type: ty };
     NodeServices {
-        validator_factory: Arc::new(SimpleValidatorFactory::new_with_policy(policy)),
+        validator_factory: factory(policy, ONCHAIN_FACTORY.load(std::sync::atomic::Ordering::Relaxed)),
         starting_time_factory: make_genesis_starting_time_factory(Network::Testnet),
         persister,
         clock,
@@ -634,8 +649,8 @@ impl Group for C12Fee {
     fn model_line(&self, op: &str) -> Option<String> {
         let t: Vec<&str> = op.split_whitespace().collect();
         Some(match t.as_slice() {
-            ["f_new", l, ty] => format!("spec {} {}", l, ty),
-            ["f_onchain", now, fee] => format!("insert {} {}", now, fee.parse::<u64>().unwrap_or(0) * 1000),
+            ["f_new", l, ty] | ["f_new", l, ty, _] => format!("spec {} {}", l, ty),
+            ["f_onchain", now, fee] | ["f_onchain", now, fee, _] => format!("insert {} {}", now, fee.parse::<u64>().unwrap_or(0) * 1000),
             ["f_restart", l, ty] => format!("restart {} {}", l, ty),
             _ => op.to_string(),
         })
@@ -644,14 +659,14 @@ impl Group for C12Fee {
         let limit = *rng.pick(&[5_000_000u64, 3_000_000, 10_000_000]);
         let ty = *rng.pick(&["h", "d"]);
         let (bi, n) = if ty == "d" { (3600u64, 24u64) } else { (300, 12) };
-        let mut ops = vec![format!("f_new {} {}", limit, ty)];
+        let mut ops = vec![format!("f_new {} {}{}", limit, ty, if rng.chance(1, 3) { " o" } else { "" })];
         let len = rng.range(3, if tier == Tier::Quick { 8 } else { 16 }) as usize;
         let mut t = 1_600_000_000u64 + rng.below(10_000);
         for _ in 0..len {
             t += match rng.below(5) { 0 => 0, 1 => bi - (t % bi), 2 => rng.below(bi), 3 => bi * rng.range(1, n), _ => rng.below(bi * n) };
             if rng.chance(1, 3) { ops.push(format!("f_restart {} {}", limit, ty)); }
             let fee = match rng.below(5) { 0 => limit / 1000, 1 => limit / 2000 + 1, 2 => limit / 2000, 3 => 300, _ => rng.range(200, limit / 1000) };
-            ops.push(format!("f_onchain {} {}", t, fee));
+            ops.push(format!("f_onchain {} {}{}", t, fee, if rng.chance(1, 3) { " a" } else { "" }));
         }
         ops
     }
@@ -669,7 +684,9 @@ impl Group for C12Fee {
         for (i, op) in ops.iter().enumerate() {
             let t: Vec<&str> = op.split_whitespace().collect();
             let line = match t.as_slice() {
-                ["f_new", l, ty] => {
+                ["f_new", l, ty, ..] => {
+                    ONCHAIN_FACTORY.store(t.get(3) == Some(&"o"), std::sync::atomic::Ordering::Relaxed);
+                    co.tags.insert(format!("factory:{}", if t.get(3) == Some(&"o") { "onchain" } else { "simple" }));
                     let n = Arc::new(Node::new(config, &seed, vec![], fee_services(persister.clone(), clock.clone(), l.parse().unwrap(), itype(ty).unwrap())));
                     persister.new_node(&n.get_id(), &config, &*n.get_state()).unwrap();
                     persister.new_tracker(&n.get_id(), &n.get_tracker()).unwrap();
@@ -679,7 +696,10 @@ impl Group for C12Fee {
                     log.clear();
                     format!("ok {}", d)
                 }
-                ["f_onchain", now, fee] => {
+                ["f_onchain", now, fee, ..] => {
+                    // 4th token `a`: the way vlsd does it — the signer's approver (`handle_proposed_onchain` of an
+                    // approving approver) first, then the unchecked signing step
+                    let via_approver = t.get(3) == Some(&"a");
                     let n = node.as_ref().expect("f_new first").clone();
                     let now: u64 = now.parse().unwrap();
                     let fee: u64 = fee.parse().unwrap();
@@ -689,7 +709,20 @@ impl Group for C12Fee {
                     tx_ctx.add_wallet_input(&node_ctx, SpendType::P2wpkh, 1, 1_000_000 + fee);
                     tx_ctx.add_wallet_output(&node_ctx, SpendType::P2wpkh, 1, 1_000_000);
                     let tx = tx_ctx.to_tx();
-                    let r = std::panic::catch_unwind(std::panic::AssertUnwindSafe(|| tx_ctx.sign(&node_ctx, &tx)));
+                    let r = std::panic::catch_unwind(std::panic::AssertUnwindSafe(|| {
+                        if via_approver {
+                            use vls_protocol_signer::approver::{Approve, PositiveApprover};
+                            let flags: Vec<bool> = tx.input.iter().map(|_| true).collect();
+                            match PositiveApprover().handle_proposed_onchain(&n, &tx, &flags, &tx_ctx.prev_outs, &tx_ctx.iuckeys, &tx_ctx.opaths) {
+                                Ok(true) => n.unchecked_sign_onchain_tx(&tx, &tx_ctx.ipaths, &tx_ctx.prev_outs, tx_ctx.iuckeys.clone()),
+                                Ok(false) => Err(lightning_signer::util::status::Status::failed_precondition("not approved")),
+                                Err(e) => Err(e),
+                            }
+                        } else {
+                            tx_ctx.sign(&node_ctx, &tx)
+                        }
+                    }));
+                    co.tags.insert(format!("onchain-route:{}", if via_approver { "approver" } else { "direct" }));
                     let (d, limit, wlen) = {
                         let s = n.get_state();
                         let v = &s.fee_velocity_control;
